@@ -477,6 +477,7 @@ def run(ctx):
             "probes": PROBES,
             "events": [list(e) for e in EVENTS],
             "bfs": stats,
+            "bfs_states_total": sum(st["bfs_states"] for st in stats.values()),
         },
         "exhaustive": not any(s["bfs_capped"] for s in stats.values()),
         "assumptions": [
